@@ -18,7 +18,7 @@ NOPER, NOOER = "-no-gen-PER", "-no-gen-OER"
 REPR6 = [WIDE, INDIRECT, NOCONS, NODEPS, QUOTED, NOPER]      # the six toggles enumerated exhaustively in the thorough tier
 
 DRIVER = ("gen_c13_driver.c", "ops_gen_core.c", "ops_gen_c13.c", "reflect.c")
-F70_SIG = re.compile(r"asn_(OER|PER)_memb_\w+_constr_\d+.? undeclared")
+F74_SIG = re.compile(r"asn_(OER|PER)_memb_\w+_constr_\d+.? undeclared")
 
 # ---------------------------------------------------------------------------------- option sets
 def option_sets(ctx, thorough_all=False):
@@ -44,10 +44,10 @@ def syn_ok(opts, syn):
     if syn == "oer" and NOOER in opts: return False
     return True
 
-# ---------------------------------------------------------------------------------- region of finding F71
+# ---------------------------------------------------------------------------------- region of finding F75
 def alpha_disjoint(t, env, seen=()):
     """does t contain a string type whose permitted alphabet is a union of >= 2 disjoint ranges?  (asn1c then needs
-    the value2code/code2value maps, which it emits as part of the constraint-checking code: F71)"""
+    the value2code/code2value maps, which it emits as part of the constraint-checking code: F75)"""
     k = t["k"]
     if k == "REF":
         return False if t["name"] in seen else alpha_disjoint(env[t["name"]], env, seen + (t["name"],))
@@ -64,7 +64,7 @@ def alpha_disjoint(t, env, seen=()):
 
 def set_default_zero(t, env, seen=()):
     """does t contain a SET with a DEFAULT 0 member of INTEGER/ENUMERATED type?  (stored inline by the native
-    representation, so always emitted by SET_encode_xer; a NULL pointer in the wide one, skipped: F72)"""
+    representation, so always emitted by SET_encode_xer; a NULL pointer in the wide one, skipped: F76)"""
     k = t["k"]
     if k == "REF":
         return False if t["name"] in seen else set_default_zero(env[t["name"]], env, seen + (t["name"],))
@@ -80,7 +80,7 @@ def set_default_zero(t, env, seen=()):
 def explicit_ulong_member(t, env, tagdefault, seen=()):
     """does t contain a member `[n] EXPLICIT INTEGER (lb..MAX)` (lb >= 0)?  Natively an unsigned long with its own
     descriptor whose tags[] already contain [n] while the member table says tag_mode=+1: the tag is written twice;
-    with -fwide-types the shared INTEGER descriptor is used and the tag is written once (F73)."""
+    with -fwide-types the shared INTEGER descriptor is used and the tag is written once (F77)."""
     k = t["k"]
     if k == "REF":
         return False if t["name"] in seen else explicit_ulong_member(env[t["name"]], env, tagdefault, seen + (t["name"],))
@@ -98,13 +98,13 @@ def explicit_ulong_member(t, env, tagdefault, seen=()):
 
 def known_region(st, env, tn, syn, opts):
     if syn == "uper" and NOCONS in opts and alpha_disjoint(env[tn], env):
-        st.skipped["F71"] += 1
+        st.skipped["F75"] += 1
         return True
     if syn in ("der", "descr") and WIDE in opts and explicit_ulong_member(env[tn], env, env.get("__tagdefault__")):
-        st.skipped["F73"] += 1
+        st.skipped["F77"] += 1
         return True
     if syn in ("xer", "cxer") and WIDE in opts and set_default_zero(env[tn], env):
-        st.skipped["F72"] += 1
+        st.skipped["F76"] += 1
         return True
     return False
 
@@ -114,7 +114,7 @@ def has_constraint(t):
 
 def hoist_member_constraints(m):
     """Every constrained type below the top level becomes a named top-level type (so that no
-    *member* carries a constraint: the region where -fno-constraints compiles, see F70)."""
+    *member* carries a constraint: the region where -fno-constraints compiles, see F74)."""
     new_types = []
     n = [0]
     def walk(t, top):
@@ -151,7 +151,7 @@ class Erase:
         self.indirect = INDIRECT in opts  # ATF_POINTER of CHOICE members
         self.noper = NOPER in opts        # PER constraint records, CHOICE canonical-order tables
         self.nooer = NOOER in opts        # OER constraint records
-        self.nocons = NOCONS in opts      # (value2code/code2value presence: finding F71, judged on the encodings)
+        self.nocons = NOCONS in opts      # (value2code/code2value presence: finding F75, judged on the encodings)
 
 def _field(sx, name):
     return next((e for e in sx if isinstance(e, list) and e and e[0] == name), None)
@@ -264,7 +264,7 @@ class PState:
         self.samples = {}
         self.skipped = collections.Counter()
         self.stats = collections.Counter()
-        self.f70_seen = None      # (module text, compiler message)
+        self.f74_seen = None      # (module text, compiler message)
 
     def fail(self, key, sample):
         self.fails[key] += 1
@@ -295,10 +295,10 @@ def run_module(ctx, st, m, bvals, sets, nvals, try_nocompound=True):
             if s == ("<no -fcompound-names>",):
                 st.stats["no_compound_names_rejected"] += 1       # name clashes are expected without the option
                 continue
-            if NOCONS in s and not (NOPER in s and NOOER in s) and isinstance(exe, build.BuildError) and F70_SIG.search(msg):
-                st.skipped["F70"] += 1
-                if not st.f70_seen: st.f70_seen = (txt, F70_SIG.search(msg).group(0))
-                # the region of F70: only DER/XER can be compared, build with both codecs disabled
+            if NOCONS in s and not (NOPER in s and NOOER in s) and isinstance(exe, build.BuildError) and F74_SIG.search(msg):
+                st.skipped["F74"] += 1
+                if not st.f74_seen: st.f74_seen = (txt, F74_SIG.search(msg).group(0))
+                # the region of F74: only DER/XER can be compared, build with both codecs disabled
                 s2 = tuple(o for o in s if o not in (NOPER, NOOER)) + (NOPER, NOOER)
                 retry.append((i, s2))
                 continue
@@ -473,14 +473,14 @@ def focus_module(rng):
 WITNESSES = {
     "F20": {"module": "W DEFINITIONS AUTOMATIC TAGS ::= BEGIN U ::= INTEGER (0..MAX) END", "type": "U", "op": "enc der (int 9223372036854775808)",
             "options_a": list(BASE), "options_b": list(BASE) + [WIDE], "expect_a": "ok 02088000000000000000", "expect_b": "ok 0209008000000000000000"},
-    "F70": {"module": "W DEFINITIONS AUTOMATIC TAGS ::= BEGIN S ::= SEQUENCE { a INTEGER (0..7) } END", "type": "S", "options_b": list(BASE) + [NOCONS],
-            "expect_build_error": F70_SIG.pattern},
-    "F71": {"module": 'W DEFINITIONS AUTOMATIC TAGS ::= BEGIN N ::= NumericString (FROM("0".."3"|" ")) END', "type": "N", "op": "enc uper (os 3320)",
+    "F74": {"module": "W DEFINITIONS AUTOMATIC TAGS ::= BEGIN S ::= SEQUENCE { a INTEGER (0..7) } END", "type": "S", "options_b": list(BASE) + [NOCONS],
+            "expect_build_error": F74_SIG.pattern},
+    "F75": {"module": 'W DEFINITIONS AUTOMATIC TAGS ::= BEGIN N ::= NumericString (FROM("0".."3"|" ")) END', "type": "N", "op": "enc uper (os 3320)",
             "options_a": list(BASE), "options_b": list(BASE) + [NOCONS], "expect_a": "ok 0280", "expect_b": "ok 0260"},
-    "F72": {"module": "W DEFINITIONS AUTOMATIC TAGS ::= BEGIN T ::= SET { i INTEGER, e ENUMERATED { m, n } DEFAULT m } END", "type": "T",
+    "F76": {"module": "W DEFINITIONS AUTOMATIC TAGS ::= BEGIN T ::= SET { i INTEGER, e ENUMERATED { m, n } DEFAULT m } END", "type": "T",
             "op": "enc cxer (set (i (int 1)))", "options_a": list(BASE), "options_b": list(BASE) + [WIDE],
             "expect_a": "ok 3c543e3c693e313c2f693e3c653e3c6d2f3e3c2f653e3c2f543e", "expect_b": "ok 3c543e3c693e313c2f693e3c2f543e"},
-    "F73": {"module": "W DEFINITIONS ::= BEGIN S ::= SEQUENCE { a [5] EXPLICIT INTEGER (0..MAX) } END", "type": "S", "op": "enc der (seq (a (int 1)))",
+    "F77": {"module": "W DEFINITIONS ::= BEGIN S ::= SEQUENCE { a [5] EXPLICIT INTEGER (0..MAX) } END", "type": "S", "op": "enc der (seq (a (int 1)))",
             "options_a": list(BASE), "options_b": list(BASE) + [WIDE], "expect_a": "ok 3007a505a503020101", "expect_b": "ok 3005a503020101"},
 }
 
@@ -647,8 +647,8 @@ def run(ctx):
         ctx.log(f"module {m['name']}: {len(sets)} option sets; totals {dict(st.stats)}")
     ctx.cov["programs"] = st.stats["builds"]
     ctx.cov["predicate"]["option_invariance"] = {"stats": dict(st.stats), "failure_classes": len(st.fails), "skipped_known_regions": dict(st.skipped)}
-    if st.f70_seen:
-        f = next((f for f in ctx.findings if f["id"] == "F70" and f.get("status") == "known"), None)
+    if st.f74_seen:
+        f = next((f for f in ctx.findings if f["id"] == "F74" and f.get("status") == "known"), None)
         if f: ctx.known(f)
     agg = collections.Counter()
     for (kind, on, why), n in st.fails.items(): agg[(kind, why)] += n
